@@ -250,6 +250,10 @@ ROUND7 = {
     "C04": " What g is, without limits: gain_is_nstep_average / policy_gain_is_nstep_average (the n-step optimal / policy value from any terminal vector V is "
            "n*g + h(i) up to min(V-h), max(V-h), for every n), optimal_gain_dominates (no policy's gain exceeds g), optimal_gain_unique, "
            "rvi_solve_beats_every_policy (the returned policy's gain is within eps of every policy's gain). Existence of (g,h) for unichain MDPs stays textbook.",
+    "C05": " evaluate_maxdiff_bound_closed: the policy's exact discounted value exists and is unique, and a converged max_diff evaluation is within eps/gamma of it.",
+    "C20": " Verbosity (model of utils.logging.verbosity_to_loguru_level and Solver.set_verbosity): loguruLevel_ok_iff (accepted exactly on integers 0..4; TypeError for "
+           "non-integers, ValueError outside), levelName_injective, verbosity_name_roundtrip (names in any letter case denote the level they are installed for), "
+           "setVerbosity_name_eq_int, setVerbosity_ok; tied to the real functions on integers -3..8, non-integers, bool, and 22 names (stored integer and installed loguru handler level).",
 }
 for _k, _v in ROUND7.items():
     CHECKS[_k]["text"] += _v
